@@ -65,6 +65,82 @@ end
 
 def File.wf (f : File) : Bool := f.stmts.wf
 
+/-! ## Side conditions of the printer half of the round trip -/
+
+def partLines : WordPart → List Nat
+  | .lit p e _ => [p.line, e.line]
+  | .sgl l r _ => [l.line, r.line]
+
+mutual
+/-- the line numbers of a statement in source order -/
+def Stmt.lines : Stmt → List Nat
+  | .mk pos semi _ _ cmd => pos.line :: (cmd.lines ++ (if semi.valid then [semi.line] else []))
+def Cmd.lines : Cmd → List Nat
+  | .call args => args.flatMap fun w => w.parts.flatMap partLines
+  | .subshell lp rp ss => lp.line :: (ss.lines ++ [rp.line])
+  | .block lb rb ss => lb.line :: (ss.lines ++ [rb.line])
+  | .binary opPos _ x y => x.lines ++ opPos.line :: y.lines
+def Stmts.lines : Stmts → List Nat
+  | .nil => []
+  | .cons s r => s.lines ++ r.lines
+end
+
+/-- positions as a parser assigns them: line numbers never decrease in source order.  (With
+    arbitrary line numbers the printer writes `((a) )` for `( (a) )` when the inner statement
+    claims an earlier line than the outer parenthesis: `subshellOpen` then expects a line break
+    that `newlines` does not make.) -/
+def posMono (f : File) : Prop := f.stmts.lines.Pairwise (· ≤ ·)
+
+mutual
+/-- the printer's `wroteSemi` flag after a statement, under SingleLine -/
+def Stmt.endWS : Stmt → Bool
+  | .mk _ _ _ bg c => bg || c.endWS
+def Cmd.endWS : Cmd → Bool
+  | .call _ => false
+  | .subshell _ _ ss => ss.endWS
+  | .block _ _ ss => ss.endWS
+  | .binary _ _ _ y => y.endWS
+def Stmts.endWS : Stmts → Bool
+  | .nil => false
+  | .cons s .nil => s.endWS
+  | .cons _ r => r.endWS
+end
+
+mutual
+/-- no statement that is followed by another one leaves `wroteSemi` set without having written
+    a terminator itself (the shape of known finding C01-single-missing-semicolon) -/
+def Stmt.noStale : Stmt → Bool
+  | .mk _ _ _ _ c => c.noStale
+def Cmd.noStale : Cmd → Bool
+  | .call _ => true
+  | .subshell _ _ ss => ss.noStale
+  | .block _ _ ss => ss.noStale
+  | .binary _ _ x y => x.noStale && y.noStale
+def Stmts.noStale : Stmts → Bool
+  | .nil => true
+  | .cons s .nil => s.noStale
+  | .cons s r => s.noStale && (s.bg || !s.endWS) && r.noStale
+end
+
+mutual
+/-- no subshell whose single statement starts with a parenthesis (the shape of
+    C02-subshell-trailing-blank) and none whose single statement ends with one
+    (C02-closing-paren-space) -/
+def Stmt.noParenParen : Stmt → Bool
+  | .mk _ _ _ _ c => c.noParenParen
+def Cmd.noParenParen : Cmd → Bool
+  | .call _ => true
+  | .subshell _ _ ss =>
+    ss.noParenParen && (match ss with
+      | .cons s .nil => !s.startsWithLparen && !s.endsWithRparen
+      | _ => true)
+  | .block _ _ ss => ss.noParenParen
+  | .binary _ _ x y => x.noParenParen && y.noParenParen
+def Stmts.noParenParen : Stmts → Bool
+  | .nil => true
+  | .cons s r => s.noParenParen && r.noParenParen
+end
+
 /-! ## No panic: `levelIncs` stays balanced -/
 
 /-- not panicked, and `n` open indentation levels -/
